@@ -63,7 +63,7 @@ def cases(tier, seed):
                     yield dict(kind="knn_big", k=kn, shape=shape)
             if k <= (3 if tier == "quick" else 4):
                 for proj in (False, True, 2, 3):
-                    for form in ("array2d", "array1d", "grid1", "grid2"):
+                    for form in ("array2d", "array1d", "grid1", "grid2", "array_scattered"):
                         yield dict(kind="mask", sub=list(sub), proj=proj, form=form)
                         if not proj:
                             # the same geometry at coordinate magnitudes of 1e-9 and 1e6 (powers of two: exact): seed C15-9, an
@@ -300,7 +300,7 @@ def run(case, rec):
         thresholds.append(("mid", roots[-1] + 1.0))
         if distinct[0] > 0:
             thresholds.append(("mid", roots[0] / 2))
-        if form in ("array1d", "grid2") :
+        if form in ("array1d", "grid2", "array_scattered"):
             thresholds = thresholds[::3]
         kw = {}
         if proj:
@@ -313,6 +313,11 @@ def run(case, rec):
                 want[idx] = v <= t4
             if form.startswith("array"):
                 a, b = (qe, qn) if form == "array2d" else (qe.ravel(), qn.ravel())
+                if form == "array_scattered":
+                    # the query points in an order that is neither sorted nor a raveled mesh (seed C15-13: results put back with the
+                    # forward instead of the inverse permutation)
+                    perm_ = (np.arange(qe.size) * 37 + 11) % qe.size
+                    a, b = qe.ravel()[perm_], qn.ravel()[perm_]
                 if sc != 1.0:
                     got = call(rec, vd.distance_mask, (e * sc, n * sc), t * sc, coordinates=(a * sc, b * sc), **kw)
                 else:
@@ -322,7 +327,7 @@ def run(case, rec):
                     return
                 got = np.asarray(got)
                 rec.check(got.dtype == bool and got.shape == a.shape, "mask must be boolean in the query shape")
-                w = want if form == "array2d" else want.ravel()
+                w = want if form == "array2d" else (want.ravel()[perm_] if form == "array_scattered" else want.ravel())
                 diff = np.argwhere(got != w)
                 rec.check(diff.size == 0, "distance_mask(maxdist=%r [%s]) wrong at query %s: nearest data point at distance^2*4 = %s"
                           % (t, kind_t, [(float(a[tuple(i)]), float(b[tuple(i)])) for i in diff[:3]], [mind[tuple(i)] if form == "array2d" else None for i in diff[:3]]))
